@@ -59,6 +59,19 @@ def cases(tier):
                     out.append(dict(name="intervals_B%d_%s_%s_nounexp" % (B, aggs[1][:6], alphas[1]), kind="intervals", B=B,
                                     alphas=alphas, units=BS.margin_units(10, 3, 0), aggregates=aggs, weight=30 * B))
 
+    # an uncontested, fully counted contest: predicted margin exactly +1 (and -1 for the mirror image)
+    import copy
+
+    for side in ("dem", "gop"):
+        us = copy.deepcopy(BS.margin_units(5, 1, 0, states=("AA", "BB")))
+        us = [u for u in us if not (u["state"] == "BB" and u["kind"] == "non")]
+        for u in us:
+            if u["state"] == "BB":
+                a_, b_ = ("dem", "gop") if side == "dem" else ("gop", "dem")
+                u["res"][a_] = u["res"]["dem"] + u["res"]["gop"]  # same two-party total (the unit stays eligible)
+                u["res"][b_] = 0
+        out.append(dict(name="intervals_uncontested_%s" % side, kind="intervals", B=2, alphas=[0.5, 0.9], units=us,
+                        aggregates=["postal_code", "county_fips", "unit"], weight=20))
     return out
 
 
